@@ -365,6 +365,13 @@ def execute(case, ctx):
                             break
                 if close:
                     key = "server:continuation:snapshot-served-in-LAST_STEP"
+            if key == "server:continuation" and case.get("hb2") and sd is not None and bounds and sd == bounds[0]["steps_done"] and R.N == ref.N and R.N >= 2:
+                # served before the first step of this integrate() call: the initial heartbeat of reb_simulation_integrate_raw runs before the loop has taken the
+                # server mutex, so a request can see the state between the two phases of a heartbeat that updates the simulation (the planted disturbance of the
+                # last particle's mass, exactly)
+                m_ref = ref.particles[ref.N - 1].m
+                if rb.dbits(R.particles[R.N - 1].m) == rb.dbits(m_ref * 1.5 + 1e-3):
+                    key = "server:continuation:initial-heartbeat-outside-mutex"
             viol("server", "continuing the served snapshot does not reproduce the run", "client %d (%s, arrived tick %d of ~%d, %s, steps_done %s): final t %r vs %r" % (ci, cfg["integrator"], inf["tick"], H, phase, sd, R.t, ref.t), key=key)
     sig = ("B%x" % st["digest"]) if served else None
     return dict(viols=viols, sig=sig, probes=probes, sim={"ticks": st["ticks"], "switches": st["switches"], "steps": int(sim.steps_done), "simulated_us": st["ticks"]})
